@@ -885,7 +885,7 @@ def _long_case(rng, shape, D, n=None):
 def _gen_long(rng, tier, scale):
     quick = tier == "quick"
     out = []
-    reps = (1 if quick else 6) * scale
+    reps = (2 if quick else 8) * scale
     for _ in range(reps):
         for D in LONG_DELAYS:
             for shape in ("fir-sparse", "iir-sparse", "fir-dense", "both"):
@@ -958,7 +958,7 @@ def tally(eng, c, io):
         eng.count("long_order", max(ks) - min(ks) if ks else 0)
         n = len(xs_of(c))
         eng.count("long_input_len", "<100" if n < 100 else "100-999" if n < 1000 else "1000-4095" if n < 4096 else "4096+")
-        eng.count("long_samples", "Fraction" if c["xs_pat"].get("frac") else "int")
+        eng.count("long_samples", "Fraction" if c.get("xs_pat", {}).get("frac") or any(isinstance(x, str) for x in c.get("xs", [])) else "int")
     eng.count("xs_flavour", c.get("xs_as", "list"))
     eng.count("route", c.get("route", "dict"))
     m = c.get("mem")
